@@ -4,13 +4,19 @@ package config
 
 import (
 	"bytes"
+	"context"
+	"errors"
 	"fmt"
+	"os"
+	"path/filepath"
+	"sync"
 	"math"
 	"math/big"
 	"sort"
 	"strconv"
 	"strings"
 
+	"github.com/gethiox/HIDI/internal/pkg/input"
 	"github.com/holoplot/go-evdev"
 	"github.com/pelletier/go-toml/v2"
 )
@@ -216,6 +222,109 @@ func (p *parseState) line(toks []string) (string, bool) {
 	return "bad-op", true
 }
 
-type loadState struct{}
+type loadState struct {
+	dir    string
+	cfgs   *DeviceConfigs
+	loaded string
+}
 
-func (l *loadState) line(toks []string) (string, bool) { return "bad-op", true }
+var rootDirs = []string{factoryGamepad, factoryKeyboard, userGamepad, userKeyboard}
+
+func (l *loadState) reset() {
+	if l.dir != "" {
+		os.RemoveAll(l.dir)
+	}
+	d, err := os.MkdirTemp(os.Getenv("VERIF_TMP"), "load-")
+	if err != nil {
+		panic(err)
+	}
+	l.dir = d
+	for _, r := range rootDirs {
+		os.MkdirAll(filepath.Join(d, r), 0o777)
+	}
+	l.cfgs = nil
+}
+
+func dumpCM(m ConfigMap) string {
+	var items []string
+	for id, c := range m {
+		items = append(items, fmt.Sprintf("%d:%d:%d:%d=%s", id.Bus, id.Vendor, id.Product, id.Version, enhex(c.ConfigFile)))
+	}
+	sort.Strings(items)
+	return strings.Join(items, ",")
+}
+
+func (l *loadState) line(toks []string) (string, bool) {
+	switch toks[0] {
+	case "tree.reset":
+		l.reset()
+		return "", false
+	case "tree.missing":
+		r, _ := strconv.Atoi(toks[1])
+		os.RemoveAll(filepath.Join(l.dir, rootDirs[r]))
+		return "", false
+	case "tree.dir":
+		r, _ := strconv.Atoi(toks[1])
+		os.MkdirAll(filepath.Join(l.dir, rootDirs[r], unhex(toks[2])), 0o777)
+		return "", false
+	case "tree.file":
+		r, _ := strconv.Atoi(toks[1])
+		p := filepath.Join(l.dir, rootDirs[r], unhex(toks[2]))
+		os.MkdirAll(filepath.Dir(p), 0o777)
+		if err := os.WriteFile(p, []byte(unhex(toks[3])), 0o666); err != nil {
+			panic(err)
+		}
+		return "", false
+	case "tree.load":
+		old, _ := os.Getwd()
+		os.Chdir(l.dir)
+		defer os.Chdir(old)
+		res := ""
+		func() {
+			defer func() {
+				if e := recover(); e != nil {
+					res = "panic"
+				}
+			}()
+			var wg sync.WaitGroup
+			c, err := LoadDeviceConfigs(context.Background(), &wg)
+			if err != nil {
+				res = "err"
+				return
+			}
+			l.cfgs = &c
+			res = fmt.Sprintf("ok fg=[%s] fk=[%s] ug=[%s] uk=[%s]", dumpCM(c.Factory.Gamepads), dumpCM(c.Factory.Keyboards),
+				dumpCM(c.User.Gamepads), dumpCM(c.User.Keyboards))
+		}()
+		return res, true
+	case "find":
+		if l.cfgs == nil {
+			return "noload", true
+		}
+		var n [5]int
+		for i := 0; i < 5; i++ {
+			n[i], _ = strconv.Atoi(toks[1+i])
+		}
+		id := input.InputID{Bus: uint16(n[0]), Vendor: uint16(n[1]), Product: uint16(n[2]), Version: uint16(n[3])}
+		res := ""
+		func() {
+			defer func() {
+				if e := recover(); e != nil {
+					res = "panic"
+				}
+			}()
+			c, err := l.cfgs.FindConfig(id, input.DeviceType(n[4]))
+			if err != nil {
+				if errors.Is(err, UnsupportedDeviceType) {
+					res = "err:unsupported"
+				} else {
+					res = "err:notfound"
+				}
+				return
+			}
+			res = fmt.Sprintf("ok %s %s", enhex(c.ConfigFile), c.ConfigType)
+		}()
+		return res, true
+	}
+	return "bad-op", true
+}
